@@ -1001,3 +1001,311 @@ class Volume3D(Property2D):
             if inp["modes"] > 8:
                 inp["modes"] = 8
             yield inp
+
+
+# ---------------------------------------------------------------------------
+# modular forms of the distance functions (used by interface_position, _get_phase_field, volume)
+def _wrap_like(r, ref):
+    if isinstance(ref, SCell):
+        return SCell(r, ref.space)
+    if isinstance(ref, SArr):
+        return SArr([r], ref.ndim)
+    return r
+
+
+def _dist2d_apply(self, engine, run, fi, args, kwargs):
+    me, phi = args[0], args[1]
+    run.trust(f"contract:{self.key} (verified separately)")
+    return _wrap_like(radius_of(me) * (1 + PS2(npairs(me), to_real(val(phi)))), phi)
+
+
+def _dist3d_apply(self, engine, run, fi, args, kwargs):
+    me, th = args[0], args[1]
+    ph = args[2] if len(args) > 2 else kwargs.get("φ")
+    if ph is not None and isinstance(th, SCell) and isinstance(ph, SCell) and th.space != ph.space:
+        raise SymRaise(SExc("ValueError", ("Shape of θ and φ must agree",)))
+    phv = to_real(val(ph)) if ph is not None else z3.RealVal(0)
+    run.trust(f"contract:{self.key} (verified separately)")
+    return _wrap_like(radius_of(me) * (1 + PS3(nmodes(me), to_real(val(th)), phv)), th)
+
+
+def _distaxi_apply(self, engine, run, fi, args, kwargs):
+    me = args[0]
+    if len(args) + len(kwargs) != 2:
+        run.oblige(f"call arity: PerturbedDroplet3DAxisSym.interface_distance takes 1 angle but {len(args) + len(kwargs) - 1} were given",
+                   False, kind="implicit", assume_after=False)
+        raise SymRaise(SExc("TypeError", ("interface_distance() takes 2 positional arguments",)))
+    th = args[1]
+    run.trust(f"contract:{self.key} (verified separately)")
+    return _wrap_like(radius_of(me) * (1 + PSA(nmodes(me), to_real(val(th)))), th)
+
+
+Distance2D.modular, Distance2D.apply = True, _dist2d_apply
+Distance3D.modular, Distance3D.apply = True, _dist3d_apply
+DistanceAxi.modular, DistanceAxi.apply = True, _distaxi_apply
+
+
+def unit_vector(dim, angs):
+    if dim == 2:
+        (p,) = angs
+        return [_cos(p), _sin(p)]
+    th, ph = angs
+    return [_sin(th) * _cos(ph), _sin(th) * _sin(ph), _cos(th)]
+
+
+class InterfacePosition(PerturbedMethod):
+    """interface_position(angles) == centre + rho(angles) * unit_vector(angles), row by row"""
+    rho = None
+
+    def cases(self):
+        return [dict(arg="array")]
+
+    def post(self, a, ret, case):
+        me = a["self"]
+        if not (isinstance(ret, models.SStack) and len(ret.cells) == self.dim):
+            return [(f"returns an (N, {self.dim}) array of positions", False)]
+        angs = [self.ang[nm] for nm in self.angles]
+        if len(angs) < self.dim - 1:
+            angs.append(z3.RealVal(0))
+        u = unit_vector(self.dim, angs)
+        rho = self.rho(me, angs)
+        pos = me.fields["data"].get("position").elems
+        return [(f"component {j} == centre[{j}] + rho(angles) * e_{j}(angles)",
+                 to_real(val(ret.cells[j])) == to_real(pos[j]) + rho * u[j]) for j in range(self.dim)]
+
+    def rho_num(self, inputs):
+        raise NotImplementedError
+
+    def concrete_run(self, case, inputs):
+        import numpy as np
+        d = self.mk(inputs)
+        angs = [inputs["ang0"], inputs["ang1"]][: len(self.angles)]
+        try:
+            got = d.interface_position(*[np.array([x, x]) for x in angs])
+        except Exception as e:   # noqa: BLE001
+            return dict(violated=[f"unexpected exception {type(e).__name__}: {e}"], inputs=inputs)
+        full = angs + [0.0] * (self.dim - 1 - len(angs))
+        if self.dim == 2:
+            u = np.array([math.cos(full[0]), math.sin(full[0])])
+        else:
+            u = np.array([math.sin(full[0]) * math.cos(full[1]), math.sin(full[0]) * math.sin(full[1]), math.cos(full[0])])
+        exp = np.asarray(d.position) + self.rho_num(inputs) * u
+        ok = np.shape(got) == (2, self.dim) and np.allclose(got[0], exp, rtol=1e-9, atol=1e-12)
+        return dict(violated=[] if ok else ["interface position == centre + rho(angles) * unit vector"], observed=repr(got),
+                    expected=repr(exp), inputs=inputs)
+
+
+@register
+class Position2D(InterfacePosition):
+    key = f"{MOD}:PerturbedDroplet2D.interface_position"
+    rho = staticmethod(lambda me, angs: radius_of(me) * (1 + PS2(npairs(me), angs[0])))
+
+    def rho_num(self, inputs):
+        return Distance2D.expected(self, inputs)
+
+
+@register
+class Position3D(InterfacePosition):
+    key = f"{MOD}:PerturbedDroplet3D.interface_position"
+    cls_name, dim, angles = "PerturbedDroplet3D", 3, ("θ", "φ")
+    rho = staticmethod(lambda me, angs: radius_of(me) * (1 + PS3(nmodes(me), angs[0], angs[1])))
+
+    def rho_num(self, inputs):
+        return inputs["radius"] * (1 + Method3D.ysum(self, inputs, dict(phi="given")))
+
+
+@register
+class PositionAxi(InterfacePosition):
+    """The axisymmetric class must place interface points at its own interface distance
+    (property: 'interface positions are the centre plus that distance along the given direction')."""
+    key = f"{MOD}:PerturbedDroplet3DAxisSym.interface_position"
+    cls_name, dim, angles, on_axis = "PerturbedDroplet3DAxisSym", 3, ("θ", "φ"), True
+    rho = staticmethod(lambda me, angs: radius_of(me) * (1 + PSA(nmodes(me), angs[0])))
+
+    def call(self, engine, run, fi, a, case):
+        # whatever `interface_position` the class resolves to (inherited or its own)
+        m = engine.getattr(run, a["self"], "interface_position")
+        return engine.invoke(run, m, [a["θ"], a["φ"]], {})
+
+    def rho_num(self, inputs):
+        return inputs["radius"] * (1 + MethodAxi.ysum(self, inputs))
+
+
+class PositionSpherical(InterfacePosition):
+    key = f"{MOD}:SphericalDroplet.interface_position"
+    cls_name = "SphericalDroplet"
+    rho = staticmethod(lambda me, angs: radius_of(me))
+
+    def rho_num(self, inputs):
+        return inputs["radius"]
+
+    def mk(self, inputs):
+        pos = [fnum(inputs.get(f"pos{j}", 0.0)) for j in range(self.dim)]
+        return make_droplet("SphericalDroplet", pos, fnum(inputs.get("radius", 1.0)))
+
+
+@register
+class PositionSpherical2(PositionSpherical):
+    variant, dim, angles = "dim2", 2, ("φ",)
+
+
+@register
+class PositionSpherical3(PositionSpherical):
+    variant, dim, angles = "dim3", 3, ("θ", "φ")
+
+
+# --- modular forms of interface_position and the triangulation --------------------------------
+def _position_apply(dim, rho):
+    def apply(self, engine, run, fi, args, kwargs):
+        me = args[0]
+        angs = list(args[1:])
+        if "φ" in kwargs:
+            angs.append(kwargs["φ"])
+        if len(angs) < dim - 1:
+            angs.append(SCell(z3.RealVal(0), angs[0].space) if isinstance(angs[0], SCell) else z3.RealVal(0))
+        if not all(isinstance(x, SCell) for x in angs):
+            raise Undecided("interface_position contract is used for array arguments only")
+        av = [to_real(x.v) for x in angs]
+        u = unit_vector(dim, av)
+        r = rho(me, av)
+        pos = me.fields["data"].get("position").elems
+        run.trust(f"contract:{self.key} (verified separately)")
+        return models.SStack([SCell(to_real(pos[j]) + r * u[j], angs[0].space) for j in range(dim)], angs[0].space)
+    return apply
+
+
+Position2D.modular, Position2D.apply = True, _position_apply(2, Position2D.rho)
+Position3D.modular, Position3D.apply = True, _position_apply(3, Position3D.rho)
+PositionAxi.modular, PositionAxi.apply = True, _position_apply(3, PositionAxi.rho)
+
+
+@register
+class PositionSphericalModular(Contract):
+    """call-site form of SphericalDroplet.interface_position (verified by the variants %dim2 / %dim3)"""
+    key = f"{MOD}:SphericalDroplet.interface_position"
+
+    def cases(self):
+        return []
+
+    def apply(self, engine, run, fi, args, kwargs):
+        me = args[0]
+        dim = len(me.fields["data"].get("position"))
+        if len(args) - 1 != dim - 1:
+            raise SymRaise(SExc("ValueError", ("Interfacial position requires dim-1 angles",)))
+        if dim not in (2, 3):
+            raise SymRaise(SExc("NotImplementedError", ()))
+        return _position_apply(dim, PositionSpherical.rho)(self, engine, run, fi, args, kwargs)
+
+
+def _tri_model(engine):
+    """`triangulated_spheres`: stored sphere triangulations (resource file).  Assumed: get_triangulation returns a
+    dict with 'angles' (N,2) = (phi, theta) per vertex, 'points' (N,3) and 'cells'.  Nothing is assumed about how the
+    stored points relate to the stored angles."""
+    from pyvc.values import SNative, SOpaque
+
+    def get_tri(run, a, k):
+        run.trust("model: triangulated_spheres.get_triangulation returns stored angles/points/cells (resource file)")
+        sp = "tri"
+        ph, th = run.fresh_real("tri_phi"), run.fresh_real("tri_theta")
+        run.ghost["tri"] = dict(phi=ph, theta=th)
+        return {"angles": models.SStack([SCell(ph, sp), SCell(th, sp)], sp),
+                "points": models.SStack([SCell(run.fresh_real(f"tri_pt{j}"), sp) for j in range(3)], sp),
+                "cells": SOpaque("tri-cells")}
+    engine.externals[("glob", MOD, "triangulated_spheres")] = SOpaque("triangulated_spheres", attrs={
+        "get_triangulation": SNative(get_tri, "get_triangulation")})
+
+
+_old_install = models.install
+
+
+def _install(engine):
+    _old_install(engine)
+    _tri_model(engine)
+
+
+models.install = _install
+
+
+@register
+class Triangulation(Contract):
+    """Vertices of get_triangulation() lie on the interface: vertex == centre + rho(angles) * e(angles)."""
+    key = f"{MOD}:SphericalDroplet.get_triangulation"
+    modular = False
+    CLS = {"SphericalDroplet": (PositionSpherical.rho, None), "PerturbedDroplet2D": (Position2D.rho, None),
+           "PerturbedDroplet3D": (Position3D.rho, None), "PerturbedDroplet3DAxisSym": (PositionAxi.rho, None)}
+
+    def cases(self):
+        return [dict(cls="SphericalDroplet", dim=2), dict(cls="SphericalDroplet", dim=3), dict(cls="PerturbedDroplet2D", dim=2),
+                dict(cls="PerturbedDroplet3D", dim=3), dict(cls="PerturbedDroplet3DAxisSym", dim=3)]
+
+    def setup(self, run, case):
+        d = sym_droplet(run, "self", case["dim"], case["cls"], on_axis=case["cls"].endswith("AxisSym"))
+        run.assume(d.fields["data"].get("radius") > 0)
+        res = run.input_real("resolution")
+        run.assume(res > 0)
+        self.run = run
+        return dict(self=d, resolution=res)
+
+    def post(self, a, ret, case):
+        me, dim = a["self"], case["dim"]
+        if not (isinstance(ret, dict) and isinstance(ret.get("vertices"), models.SStack) and len(ret["vertices"].cells) == dim):
+            return [("returns a dict with an (N, dim) array 'vertices'", False)]
+        if dim == 2:
+            lin = self.run.ghost.get("linspace", [])
+            lin = [g for g in lin if "lines" in ret]
+            if not lin:
+                return [("2-D outline angles come from a linspace over [0, 2 pi]", False)]
+            angs = [to_real(lin[-1]["cell"].v)]
+        else:
+            t = self.run.ghost.get("tri")
+            if t is None:
+                return [("3-D vertices are built from the stored triangulation", False)]
+            angs = [t["theta"], t["phi"]]
+        rho = self.CLS[case["cls"]][0](me, angs)
+        u = unit_vector(dim, angs)
+        pos = me.fields["data"].get("position").elems
+        return [(f"vertex component {j} == centre[{j}] + rho(angles) * e_{j}(angles)  (vertices lie on the interface)",
+                 to_real(val(ret["vertices"].cells[j])) == to_real(pos[j]) + rho * u[j]) for j in range(dim)]
+
+    def bounded_inputs(self, case, tier, seed):
+        import random
+        rng = random.Random(seed + 9)
+        for t in range(4 if tier == "quick" else 40):
+            n = 0 if case["cls"] == "SphericalDroplet" else [4, 3, 8, 6][t % 4]
+            out = dict(modes=n, radius=[0.7, 1.0, 2.0, 5.0][t % 4], resolution=[0.5, 1.0, 0.3, 2.0][t % 4])
+            for j in range(case["dim"]):
+                out[f"pos{j}"] = rng.uniform(-2, 2)
+            for k in range(n):
+                out[f"amp{k}"] = rng.uniform(-0.25, 0.25)
+            yield out
+
+    def concrete_run(self, case, inputs):
+        import numpy as np
+        dim = case["dim"]
+        n = int(inputs.get("modes", 0))
+        pos = [fnum(inputs.get(f"pos{j}", 0.0)) for j in range(dim)]
+        if case["cls"].endswith("AxisSym"):
+            pos[0] = pos[1] = 0.0
+        if case["cls"] == "SphericalDroplet":
+            d = make_droplet("SphericalDroplet", pos, inputs["radius"])
+        else:
+            d = make_droplet(case["cls"], pos, inputs["radius"], 1.0, np.array([inputs.get(f"amp{k}", 0.0) for k in range(n)]))
+        try:
+            tri = d.get_triangulation(inputs.get("resolution", 1.0))
+        except Exception as e:   # noqa: BLE001
+            return dict(violated=[f"unexpected exception {type(e).__name__}: {e}"], inputs=inputs)
+        v = np.asarray(tri["vertices"]) - np.asarray(pos)
+        r = np.linalg.norm(v, axis=1)
+        if dim == 2:
+            ang = [np.arctan2(v[:, 1], v[:, 0])]
+        else:
+            ang = [np.arccos(np.clip(v[:, 2] / r, -1, 1)), np.arctan2(v[:, 1], v[:, 0])]
+        if case["cls"] == "SphericalDroplet":
+            rho = np.full(len(v), d.radius)
+        elif case["cls"].endswith("AxisSym"):
+            rho = d.interface_distance(ang[0])
+        else:
+            rho = d.interface_distance(*ang)
+        ok = np.allclose(r, rho, rtol=1e-7, atol=1e-9)
+        return dict(violated=[] if ok else ["triangulation vertices lie on the interface"],
+                    observed=f"max |r - rho| = {float(np.max(np.abs(r - rho))):.3g}", inputs=inputs)
